@@ -73,6 +73,7 @@ def judge(case, rec):
     rec.event("shape=" + "x".join(case["shape"]))
     tkeys = dims[0].keys if len(dims) == 3 else [None]
     for part, tkey in zip(cube.partitions, tkeys):
+        lib.warm(part, case.get("warmup"))
         orc = Oracle(sv, q, table_key=tkey)
         rspecs, cspecs = _specs(part, orc, case)
         Z = np.asarray(part.zscores, dtype=float)
